@@ -24,7 +24,7 @@ StripD(x) == [r |-> x.r, c |-> x.c, k |-> x.k, v |-> x.v, f |-> x.f, sm |-> x.sm
 SheetOfModel(m) ==
   [EmptySheet(m.name) EXCEPT !.cells = {StripD(x) : x \in ToSet(m.cells)}, !.links = ToSet(m.links), !.merges = ToSet(m.merges),
                              !.names = m.names, !.comments = ToSet(m.comments), !.tables = m.tables, !.imgs = m.imgs,
-                             !.charts = m.ncharts, !.nole = m.nole, !.vmlnoimg = m.vmlnoimg]
+                             !.charts = m.ncharts, !.nole = m.nole, !.vmlnoimg = m.vmlnoimg, !.cfr = m.cfr]
 BookOfModel(M) == [sheets |-> [i \in DOMAIN M.sheets |-> SheetOfModel(M.sheets[i])], gnames |-> M.gnames,
                    active |-> M.active, macro |-> M.macro]
 (* the fields of the state that a Save is judged against *)
@@ -32,7 +32,7 @@ Judged(b) == [sheets |-> [i \in DOMAIN b.sheets |->
                  [name |-> b.sheets[i].name, cells |-> b.sheets[i].cells, links |-> b.sheets[i].links,
                   merges |-> b.sheets[i].merges, names |-> b.sheets[i].names, comments |-> b.sheets[i].comments,
                   tables |-> b.sheets[i].tables, imgs |-> b.sheets[i].imgs, charts |-> b.sheets[i].charts,
-                  nole |-> b.sheets[i].nole, vmlnoimg |-> b.sheets[i].vmlnoimg]],
+                  nole |-> b.sheets[i].nole, vmlnoimg |-> b.sheets[i].vmlnoimg, cfr |-> b.sheets[i].cfr]],
               gnames |-> b.gnames, macro |-> b.macro]
               \* (the active index is taken from the getters at every save: what remove_sheet does to it is not C02's business)
 NoDupModel(M) == \A i \in DOMAIN M.sheets :
@@ -80,7 +80,7 @@ Expected(e) ==
     [] e.a = "Image"       -> Post_Image(wb, e.s, [name |-> e.as, ext |-> e.ext, extl |-> e.extl])
     [] e.a = "Chart"       -> Post_Chart(wb, e.s)
     [] e.a = "Validation"  -> Post_Validation(wb, e.s)
-    [] e.a = "CondFmt"     -> Post_CondFmt(wb, e.s, e.rules)
+    [] e.a = "CondFmt"     -> Post_CondFmt(wb, e.s, e.fm)
     [] e.a = "Protect"     -> Post_Protect(wb, e.s)
     [] e.a = "RowHeight"   -> Post_RowDim(wb, e.s, e.r)
     [] e.a = "Macro"       -> Post_Macro(wb, e.on)
@@ -213,6 +213,14 @@ ContentProblems(E) ==
              ELSE {<<"defined names", "expected", AllNames(wb), "decoded", E.dec.names>>})
 ContentHits(E) == UNION {IF SheetBroken(E, s) THEN {"C02-KF8"} ELSE CellHits(E, s) \cup LinkHits(E, s) : s \in DOMAIN wb.sheets}
 
+(* ---- conditional-format rules and the differential formats they point at --------------------------------
+   C02-KF12: the writer's differential format holds font, fill, border and alignment only: the number format and the
+   protection of a rule's style are left out of the <dxf>; everything else of the entry must be as intended *)
+Carriers(f) == {DxfOf(f)} \cup (IF KFOn("C02-KF12") /\ (f.numfmt # "" \/ f.prot)
+                                THEN {[DxfOf(f) EXCEPT !.numfmt = "", !.prot = FALSE]} ELSE {})
+RuleProblems(E) == RuleOffences(E.pkg, wb, Carriers)
+RuleHits(E) == IF RuleOffences(E.pkg, wb, Intended) # {} THEN {"C02-KF12"} ELSE {}
+
 (* ---- does SavePkg (the design TLC model-checks) still describe the writer?  Not a verdict about the code:
    reported as "drift" and kept out of the violations by checks/c02.py ---------------------------------- *)
 Drift(p) ==
@@ -232,10 +240,11 @@ SaveStep(e) ==
   THEN wb' = B /\ Mismatch(l, <<"gen", ModelDiff(Judged(wb), Judged(B))>>)
   ELSE LET offs == Offences(e.pkg)
            badc == BadClauses(e.pkg, offs, e)
-           cont == IF offs.zip # {} \/ (offs.notwf # {} /\ "notwf" \in badc) THEN {} ELSE ContentProblems(e)
+           cont == IF offs.zip # {} \/ (offs.notwf # {} /\ "notwf" \in badc) THEN {}
+                   ELSE ContentProblems(e) \cup (IF offs.notwf = {} THEN RuleProblems(e) ELSE {})
        IN /\ wb' = [wb EXCEPT !.active = e.model.active]
           /\ IF badc = {} /\ cont = {}
-             THEN /\ \A id \in ClauseHits(offs) \cup ContentHits(e) : KFHit(id, l)
+             THEN /\ \A id \in ClauseHits(offs) \cup ContentHits(e) \cup (IF offs.notwf = {} THEN RuleHits(e) ELSE {}) : KFHit(id, l)
                   /\ IF api /\ Drift(e.pkg) # <<>> THEN Mismatch(l, <<"drift", Drift(e.pkg)>>) ELSE TRUE
              ELSE Mismatch(l, <<"impl", [c \in badc |-> offs[c]], cont>>)
 
